@@ -317,6 +317,18 @@ def conditional_assignments(fn) -> int:
                 for n in new:
                     ast.fix_missing_locations(n)
                 lst[i:i + 1] = new
+            elif isinstance(st, ast.Return) and isinstance(st.value, ast.IfExp):
+                # return A if c else B   ->   if c: return A  else: return B
+                def ret(v, loc):
+                    nonlocal done
+                    if isinstance(v, ast.IfExp):
+                        done += 1
+                        return [ast.copy_location(ast.If(test=v.test, body=ret(v.body, loc), orelse=ret(v.orelse, loc)), loc)]
+                    return [ast.copy_location(ast.Return(value=v), loc)]
+                new = ret(st.value, st)
+                for n in new:
+                    ast.fix_missing_locations(n)
+                lst[i:i + 1] = new
             i += 1
     return done
 
@@ -462,6 +474,27 @@ def negated_branches(fn) -> int:
     return done
 
 
+def annotated_assignments(fn) -> int:
+    """x: T = v  ->  x = v     inside function bodies (an annotation on a local changes nothing at run time); a bare `x: T` is dropped."""
+    done = 0
+    for lst in _blocks(fn):
+        i = 0
+        while i < len(lst):
+            st = lst[i]
+            if isinstance(st, ast.AnnAssign) and isinstance(st.target, ast.Name) and st.simple:
+                if st.value is None:
+                    if len(lst) > 1:
+                        del lst[i]
+                        done += 1
+                        continue
+                else:
+                    lst[i] = ast.copy_location(ast.Assign(targets=[ast.Name(id=st.target.id, ctx=ast.Store())], value=st.value), st)
+                    ast.fix_missing_locations(lst[i])
+                    done += 1
+            i += 1
+    return done
+
+
 def _reads(node: ast.AST, name: str) -> bool:
     return any(isinstance(x, ast.Name) and x.id == name for x in ast.walk(node))
 
@@ -544,19 +577,37 @@ def import_spellings(tree: ast.Module) -> int:
     done = 0
     np_aliases: Set[str] = set()          # module aliases of numpy other than np
     from_numpy: Dict[str, str] = {}       # local name -> numpy attribute
-    bare_modules: Dict[str, str] = {}     # alias -> module for math / operator / itertools
+    bare_modules: Dict[str, str] = {}     # alias -> module whose members the repository imports by name (math, operator, itertools, numbers,
+    #                                       pyttb.pyttb_utils, numpy_groupies)
+    bare_rename: Dict[tuple, str] = {("numpy_groupies", "aggregate"): "accumarray"}
+    attr_style: Dict[str, tuple] = {}     # local name -> (module, attribute) for members the repository reaches through the module (warnings.warn)
+    BARE = ("math", "operator", "itertools", "numbers", "pyttb.pyttb_utils", "numpy_groupies")
+    ATTR = ("warnings", "logging")
     for node in tree.body:
         if isinstance(node, ast.Import):
             for al in node.names:
                 if al.name == "numpy" and (al.asname or "numpy") != "np":
                     np_aliases.add(al.asname or "numpy")
-                if al.name in ("math", "operator", "itertools"):
+                if al.name in BARE and (al.asname or "." not in al.name):
                     bare_modules[al.asname or al.name] = al.name
-        elif isinstance(node, ast.ImportFrom) and node.module == "numpy" and node.level == 0:
-            for al in node.names:
-                if al.name != "*":
-                    from_numpy[al.asname or al.name] = al.name
-    if not (np_aliases or from_numpy or bare_modules):
+        elif isinstance(node, ast.ImportFrom) and node.level == 0:
+            if node.module == "numpy":
+                for al in node.names:
+                    if al.name != "*":
+                        from_numpy[al.asname or al.name] = al.name
+            elif node.module == "pyttb":
+                for al in node.names:
+                    if al.name == "pyttb_utils":
+                        bare_modules[al.asname or al.name] = "pyttb.pyttb_utils"
+            elif node.module in ATTR:
+                for al in node.names:
+                    if al.name != "*":
+                        attr_style[al.asname or al.name] = (node.module, al.name)
+            elif node.module == "numpy_groupies":
+                for al in node.names:
+                    if al.name == "aggregate" and (al.asname or al.name) != "accumarray":
+                        attr_style[al.asname or al.name] = ("", "accumarray")
+    if not (np_aliases or from_numpy or bare_modules or attr_style):
         return 0
 
     def bound_in(fn) -> Set[str]:
@@ -600,7 +651,9 @@ def import_spellings(tree: ast.Module) -> int:
                     node.value = ast.copy_location(ast.Name(id="np", ctx=ast.Load()), v)
                 elif v.id in bare_modules and isinstance(node.ctx, ast.Load) and node.attr not in self.shadow[-1]:
                     done += 1
-                    return ast.copy_location(ast.Name(id=node.attr, ctx=ast.Load()), node)
+                    name = bare_rename.get((bare_modules[v.id], node.attr), node.attr)
+                    used_bare.setdefault(bare_modules[v.id], set()).add((node.attr, name))
+                    return ast.copy_location(ast.Name(id=name, ctx=ast.Load()), node)
             return node
 
         def visit_Name(self, node):
@@ -608,8 +661,17 @@ def import_spellings(tree: ast.Module) -> int:
             if isinstance(node.ctx, ast.Load) and node.id in from_numpy and node.id not in self.shadow[-1]:
                 done += 1
                 return ast.copy_location(ast.Attribute(value=ast.Name(id="np", ctx=ast.Load()), attr=from_numpy[node.id], ctx=ast.Load()), node)
+            if isinstance(node.ctx, ast.Load) and node.id in attr_style and node.id not in self.shadow[-1]:
+                done += 1
+                mod, attr = attr_style[node.id]
+                if not mod:
+                    return ast.copy_location(ast.Name(id=attr, ctx=ast.Load()), node)
+                used_attr.add(mod)
+                return ast.copy_location(ast.Attribute(value=ast.Name(id=mod, ctx=ast.Load()), attr=attr, ctx=ast.Load()), node)
             return node
 
+    used_bare: Dict[str, Set[tuple]] = {}
+    used_attr: Set[str] = set()
     keep = []
     for node in tree.body:
         keep.append(node if isinstance(node, (ast.Import, ast.ImportFrom)) else T().visit(node))
@@ -619,12 +681,12 @@ def import_spellings(tree: ast.Module) -> int:
         extra: List[ast.stmt] = []
         if np_aliases or from_numpy:
             extra.append(ast.Import(names=[ast.alias(name="numpy", asname="np")]))
-        for alias_, mod in bare_modules.items():
-            used = {x.id for x in ast.walk(tree) if isinstance(x, ast.Name)}
-            names = sorted(n for n in ("prod", "factorial", "inf", "ceil", "floor", "sqrt", "ge", "gt", "le", "lt", "eq", "ne",
-                                       "permutations", "combinations_with_replacement", "combinations", "product", "chain") if n in used)
-            if names:
-                extra.append(ast.ImportFrom(module=mod, names=[ast.alias(name=n, asname=None) for n in names], level=0))
+        for mod, pairs in sorted(used_bare.items()):
+            extra.append(ast.ImportFrom(module=mod, names=[ast.alias(name=a, asname=(b if b != a else None)) for a, b in sorted(pairs)], level=0))
+        for mod in sorted(used_attr):
+            extra.append(ast.Import(names=[ast.alias(name=mod, asname=None)]))
+        if any(not m for m, _a in attr_style.values()):
+            extra.append(ast.ImportFrom(module="numpy_groupies", names=[ast.alias(name="aggregate", asname="accumarray")], level=0))
         pos = 0
         while pos < len(tree.body) and isinstance(tree.body[pos], ast.Expr) and isinstance(tree.body[pos].value, ast.Constant):
             pos += 1
@@ -643,6 +705,7 @@ def apply(tree: ast.Module) -> int:
     done += boolean_ints(tree)
     for node in ast.walk(tree):
         if isinstance(node, FuncDef):
+            done += annotated_assignments(node)
             done += literal_loops(node)
             done += tuple_assignments(node)
             done += negated_branches(node)
